@@ -48,7 +48,7 @@ ASSUMPTIONS = [
   "dense/sparse equivalence of qacc is judged through the cost certificate of C06 (cost of the sparse run's qacc in the dense "
   "run's problem), elementwise only on rows and on the state after one step (first-divergence thresholds 1e-4 / 1e-2)",
 ]
-BUDGET = {"quick": 130, "thorough": 1300}
+BUDGET = {"quick": 300, "thorough": 1300}
 
 A_JAC = 1e-5
 PROFILE = gen.profile(
